@@ -118,7 +118,7 @@ def r1(ctx):
                       found=f"{len(loops)} enclosing loop(s)")
 
 
-@rule("C09", "R2", "ORDER", "every round runs statistics -> MRF optimisation -> relabel on the threaded state; repopulation only for round > 0", floor=6)
+@rule("C09", "R2", "ORDER", "every round runs statistics -> MRF optimisation -> relabel on the threaded state; repopulation only for round > 0", floor=6, evidence=True)
 def r2(ctx):
     ana = ctx.ana
     ml = MainLoop(ana)
@@ -316,7 +316,7 @@ def r3(ctx):
                   role="exit:prev-source", expected="previous = copy(state.point_labels) with state from relabel", found=why)
 
 
-@rule("C09", "R4", "FLOW", "every result field derives from the state produced by the last relabel", floor=3)
+@rule("C09", "R4", "FLOW", "every result field derives from the state produced by the last relabel", floor=3, evidence=True)
 def r4(ctx):
     ana = ctx.ana
     ml = MainLoop(ana)
@@ -397,6 +397,14 @@ def r6(ctx):
 # the back edge as well.  Each obligation below is a necessary condition of the property named with it.
 def lifecycle(ctx, which):
     """which: subset of {"fresh-stats", "refill-before-fit", "fit-pairs", "nothing-after-relabel"}"""
+    saved_ev, ctx.evidence = ctx.evidence, True      # path facts of the round loop, not a shape template
+    try:
+        _lifecycle(ctx, which)
+    finally:
+        ctx.evidence = saved_ev
+
+
+def _lifecycle(ctx, which):
     ana = ctx.ana
     ml = MainLoop(ana)
     fi, cfg, rd = ml.fi, ml.cfg, ml.rd
